@@ -33,12 +33,26 @@ Inductive smsg :=
 
 Record sstate := mkS {
   ack_count : Z;     (* Server.ackCount *)
-  s_alive : bool }.  (* false after a protocol violation tore the protocol down *)
+  s_alive : bool;    (* false after a protocol violation tore the protocol down *)
+  s_inited : bool }. (* the current protocol instance has handled the peer's MsgInit (state Idle or later);
+                        false = state Init, the client has agency: before the first Init and between
+                        a Done (restart) and the next Init *)
 
-Definition s_init : sstate := mkS 0 true.
+Definition s_init : sstate := mkS 0 true false.
+
+(* Server.handleInit: runs the user callback only; ackCount is not touched *)
+Definition handle_init (st : sstate) : sstate := mkS (ack_count st) (s_alive st) true.
+(* the peer's MsgInit reaches the server (no-op when this instance already had it) *)
+Definition deliver_init (st : sstate) : sstate := if s_inited st then st else handle_init st.
 
 Inductive sop :=
-| SReqIds (blocking : bool) (req : Z) (rep : reply)  (* RequestTxIds(blocking, req); rep = the peer's answer if a request goes out *)
+| SReqIds (early : bool) (blocking : bool) (req : Z) (rep : reply)
+    (* RequestTxIds(blocking, req); rep = the peer's answer if a request goes out.
+       early = the call is made although the peer's Init for this protocol instance has not
+       arrived yet (before the first Init, or in the gap between Done and the next Init): the
+       message is built at once (ack taken from ackCount at call time), waits in the send
+       queue, and goes out when Init has given the server agency.  Without early the peer's
+       Init, if still missing, is delivered before the call. *)
 | SReqTxs (k j : Z).                                 (* RequestTxs(k ids), the peer answers j bodies *)
 
 (* may the peer answer a request sent in state Idle with this message?  From the
@@ -67,16 +81,19 @@ Definition s_req_ids (st : sstate) (blocking : bool) (req : Z) (rep : reply)
   if ack_count st <? 0 then (st, None, RExceeded) else
   if ack_count st >? max_ack_count then (st, None, RExceeded) else
   if negb (s_alive st) then (st, None, RDown) else
+  (* the message is built now, from ackCount as it is at call time *)
   let w := WReqIds blocking (u16 (ack_count st)) (u16 req) in
+  (* it leaves the queue only once Init has been handled *)
+  let st1 := deliver_init st in
   match rep with
   | RIds n =>
       if answer_allowed blocking msg_reply_tx_ids
-      then (mkS n true, Some w, ROk n)                 (* s.ackCount = len(result.txIds) *)
-      else (mkS (ack_count st) false, Some w, RDown)
+      then (mkS n true true, Some w, ROk n)            (* s.ackCount = len(result.txIds) *)
+      else (mkS (ack_count st1) false true, Some w, RDown)
   | RDone =>
       if answer_allowed blocking msg_done
-      then (mkS 0 true, Some w, RStop)                 (* handleDone: restart, s.ackCount = 0 *)
-      else (mkS (ack_count st) false, Some w, RDown)   (* no such transition: protocol error *)
+      then (mkS 0 true false, Some w, RStop)           (* handleDone: new instance (awaits Init), s.ackCount = 0 *)
+      else (mkS (ack_count st1) false true, Some w, RDown) (* no such transition: protocol error *)
   end.
 
 (* Server.RequestTxs: no window bookkeeping *)
@@ -85,8 +102,8 @@ Definition s_req_txs (st : sstate) (k j : Z) : sstate * option smsg * result :=
 
 Definition s_step (st : sstate) (o : sop) : sstate * option smsg * result :=
   match o with
-  | SReqIds b req rep => s_req_ids st b req rep
-  | SReqTxs k j => s_req_txs st k j
+  | SReqIds early b req rep => s_req_ids (if early then st else deliver_init st) b req rep
+  | SReqTxs k j => s_req_txs (deliver_init st) k j
   end.
 
 Fixpoint s_run (st : sstate) (ops : list sop) : list (sop * option smsg * result) * sstate :=
